@@ -29,6 +29,18 @@ CLAIMS = {
              'code of struct/cbitstruct is an assumed model (conformance-checked, bounded).',
         technique='contract-based deductive verification: VCs from the real AST against a wire-format spec function, bit-slice normal form + z3',
         design='5/C02'),
+    'C04': dict(
+        level='proof',
+        text='The real FrameParser.receive_data loop is verified against the recursive length-prefix splitter: per iteration exactly one '
+             'complete record X[3:3+L] is handed to the decoder, its result (frame / nothing / invalid marker) is yielded once, the buffer '
+             'advances by exactly that record, the loop exits exactly when no complete record is left and leaves the rest unchanged '
+             '(inductive invariant + variant, all buffers and chunks); the step lemma of chunk independence (a complete first record is '
+             'stable under appending bytes) is mechanised; message mode decodes exactly the message once and terminates; parse_or_ignore '
+             'is total on arbitrary bytes and returns a frame only if its parse completed; the TCP / messaging frame sources feed exactly the bytes read.',
+        note=TRUST + 'The induction over the number of records that turns the loop contract + step lemma into the statement about every '
+             'partition of the stream is a two-line meta-level argument (DESIGN 5/C04), not mechanised.',
+        technique='contract-based deductive verification: loop invariant/variant VCs from the real AST against a splitter spec, z3',
+        design='5/C04'),
 }
 
 NOT_YET = 'contracts for this property are not built yet'
